@@ -221,3 +221,40 @@ Lemma drain_signal_can_be_missed :
   exists s, exec_opt qstep drain_miss_schedule qinit = Some s /\
     q_q s = [] /\ q_wpark s = 1 /\ q_tok s = false /\ q_rst s = false /\ q_pc s 0 = QWin.
 Proof. eexists. split; [vm_compute; reflexivity|]. repeat split; reflexivity. Qed.
+
+(** ** The sender goroutine alone, from wherever it is *)
+
+(** One iteration of [pollAndSend]'s loop, as labels of consumer [c] (a label that is not
+    enabled is skipped by [exec]). *)
+Definition sender_round (c : nat) : list qlabel := [QStart c; QSelReady c; QGet c; QDrain c].
+
+Ltac qcbn E :=
+  cbn [qstep q_pc q_q q_tok q_clo q_rst q_nsig q_wwin q_wpark q_wclose q_log is_nil res_of] in E.
+Ltac stpE E :=
+  rewrite exec_cons in E; unfold step_skip at 1 in E; qcbn E;
+  unfold set_pc in E; rewrite ?upd_same in E; qcbn E.
+
+(** Packets queued, producers past their signal, no other consumer holding the token: wherever
+    the sender [c] is in its loop (idle, between polls, parked at the wait, woken, about to
+    signal drain), two loop iterations of the sender running ALONE hand out the whole queue -
+    no timer, no further add, no other traffic is needed. *)
+Theorem sender_loop_delivers : forall s c,
+  qreachable s -> q_q s <> [] -> q_nsig s = 0 ->
+  (forall c', c' <> c -> q_pc s c' <> QWoke) ->
+  let s' := exec qstep (sender_round c ++ sender_round c) s in
+  q_q s' = [] /\ qdelivered (q_log s') = qdelivered (q_log s) ++ q_q s.
+Proof.
+  intros s c R NE NS Oth s'.
+  assert (N : is_nil (q_q s) = false) by (destruct (q_q s); [contradiction|reflexivity]).
+  assert (TK : q_pc s c = QWin -> q_tok s = true).
+  { intros PC. destruct (no_lost_wakeup _ R NE) as [T|[G|[c' W]]]; [exact T|lia|].
+    destruct (Nat.eq_dec c' c) as [->|D]; [congruence|now elim (Oth c' D)]. }
+  assert (E : s' = exec qstep (sender_round c ++ sender_round c) s) by reflexivity.
+  clearbody s'. unfold sender_round in E; cbn [app] in E.
+  destruct s as [q tok clo rst nsig pc ww wp wc lg]. cbn [q_q q_tok q_nsig q_pc q_log] in *.
+  destruct (pc c) eqn:PC; destruct tok; destruct wp as [|[|wp]];
+    try (specialize (TK eq_refl); discriminate);
+    repeat (stpE E; rewrite ?PC, ?N in E; qcbn E);
+    rewrite exec_nil in E; subst s'; cbn [q_q q_log];
+    (split; [reflexivity|]); rewrite ?qdelivered_app; cbn [qdelivered]; rewrite ?app_nil_r; reflexivity.
+Qed.
